@@ -33,7 +33,7 @@ func runC09(c *Ctx) {
 	// ---- A1 ---------------------------------------------------------------------------
 	var checkFn *ssa.Function
 	for _, f := range c.Funcs(pkg) {
-		for _, cs := range c.Calls(f.SSA, Call("stringLRU).update")) {
+		for _, cs := range c.Calls(f.SSA, c.RoleCall("lru.update")) {
 			checkFn = cs.Fn
 			key := c.short(cs.Fn.String()) + " › cache update"
 			allow := []Alt{
@@ -109,7 +109,7 @@ func runC09(c *Ctx) {
 	c.Floor("C09.A2-cache-under-mutex", 2)
 	// un-cache removes exactly the given CID
 	if unc := c.Func(pkg, "Receiver.UncacheCid"); unc != nil {
-		rm := c.Calls(unc.SSA, Call("stringLRU).remove", Any(), Call("cid.Cid).String", Op("param", ""))))
+		rm := c.Calls(unc.SSA, c.RoleCall("lru.remove", Any(), Call("cid.Cid).String", Op("param", ""))))
 		c.Check(len(rm) == 1, "C09.A2-cache-under-mutex", unc.Name+" › removes the given CID", unc.SSA.Pos(), "UncacheCid removes the entry keyed by its argument", "UncacheCid does not remove the entry of the CID it is given")
 	} else {
 		c.Unk("C09.A2-cache-under-mutex", "announce.(*Receiver).UncacheCid", token.NoPos, "not found")
@@ -230,7 +230,7 @@ func runC09(c *Ctx) {
 			handled := false
 			for rb := range ReachableFromNoLoop(skip, watch) {
 				for _, in := range rb.Instrs {
-					if ci, ok := in.(ssa.CallInstruction); ok && nameMatches(c.CallX(ci).Name, "announce.Receiver).handleAnnounce") {
+					if ci, ok := in.(ssa.CallInstruction); ok && ci.Common().StaticCallee() != nil && ci.Common().StaticCallee() == c.Role("announce.deliver") {
 						handled = true
 					}
 				}
@@ -248,7 +248,7 @@ func runC09(c *Ctx) {
 				"the sender is compared before the original peer is decoded", "the original peer is decoded before the self test: the test would compare the wrong peer")
 		}
 		// what is handed on
-		for _, cs := range c.Calls(watch, Call("announce.Receiver).handleAnnounce")) {
+		for _, cs := range c.Calls(watch, c.RoleCall("announce.deliver")) {
 			am := cs.X.Args[2]
 			okCid, okPeer := false, false
 			if am.Op == "complit" {
@@ -287,7 +287,7 @@ func runC09(c *Ctx) {
 	// ---- A7 capacity ----------------------------------------------------------------------------------------------
 	nCap := 0
 	for _, f := range c.Funcs(pkg) {
-		for _, cs := range c.Calls(f.SSA, Call("announce.newStringLRU")) {
+		for _, cs := range c.Calls(f.SSA, c.RoleCall("lru.new")) {
 			nCap++
 			_, ok := Match(Const("64"), cs.X.Args[0])
 			c.Check(ok, "C09.A7-capacity", c.short(topFunc(cs.Fn).String())+" › cache capacity", cs.In.Pos(), "duplicate cache created with capacity 64", "duplicate cache capacity is not the constant 64: "+cs.X.Args[0].String())
@@ -325,8 +325,8 @@ func ReachableFromNoLoop(b *ssa.BasicBlock, fn *ssa.Function) map[*ssa.BasicBloc
 }
 
 func c09LRU(c *Ctx, pkg string) {
-	upd := c.Func(pkg, "stringLRU.update")
-	rem := c.Func(pkg, "stringLRU.remove")
+	upd := c.RoleFn("lru.update")
+	rem := c.RoleFn("lru.remove")
 	if upd == nil || rem == nil {
 		c.Unk("C09.A8-lru-discipline", "announce.stringLRU", token.NoPos, "update/remove not found")
 		return
